@@ -1257,7 +1257,7 @@ class Quantized(Sampler):
         quantized = np.clip(quantized, lower, upper)
         if not isinstance(quantized, np.ndarray):
             return domain.cast(quantized)
-        return list(quantized)
+        return [domain.cast(x) for x in quantized]
 
     def __eq__(self, other) -> bool:
         return (
